@@ -26,6 +26,8 @@ AGGR = {
     "wstream": [dict(profile="samerow", gap=0, dir="w", bank=0, rank=0), dict(profile="samebank_altrow", gap=0, dir="w", bank=3, rank=0)],
     "rstream": [dict(profile="samerow", gap=0, dir="r", bank=0, rank=0), dict(profile="samebank_altrow", gap=0, dir="r", bank=3, rank=0)],
 }
+# (read_time, write_time) budgets used by every other thorough scenario: 2^k+1, 2^k-1, odd, asymmetric, large
+RT = [(33, 17), (17, 9), (9, 5), (31, 15), (5, 3), (65, 33), (12, 40), (7, 7)]
 VICTIM = {
     "same_r": dict(profile="samebank_rows", bank=1, rank=0, dir="r", gap=40),
     "same_w": dict(profile="samebank_rows", bank=1, rank=0, dir="w", gap=40),
@@ -43,7 +45,12 @@ def scenarios(tier, seed):
                 ("DDR3_half", "allwrite", "other_r", 3), ("DDR3_half", "allread", "other_w", 3),
                 ("DDR3_half", "wstream", "other_r", 3), ("DDR3_half", "rstream", "other_w", 3), ("SDR", "wstream", "other_r", 3),
                 ("SDR", "altrow", "other_r", 2), ("DDR3", "altrow", "other_w", 3), ("DDR", "rstream", "other_w", 3),
-                ("SDR", "rbubble", "other_w", 2), ("DDR3", "wbubble", "other_r", 2), ("DDR3_half", "rbubble", "other_w", 2)]
+                ("SDR", "rbubble", "other_w", 2), ("DDR3", "wbubble", "other_r", 2), ("DDR3_half", "rbubble", "other_w", 2),
+                # anti-starvation budgets that are not powers of two (2^k+1: the end value of a counter sized for the budget
+                # minus one no longer fits) -- seeded change C05-g
+                ("SDR", "allwrite", "other_r", 2, dict(read_time=33, write_time=17)),
+                ("DDR3", "wstream", "other_r", 3, dict(read_time=17, write_time=9)),
+                ("DDR3_half", "allread", "other_w", 3, dict(read_time=9, write_time=33))]
         ncmd = 6000
     else:
         plan = []
@@ -54,16 +61,26 @@ def scenarios(tier, seed):
                     if (i % 3) == 0 or (a in ("wstream", "rstream", "altrow", "rbubble", "wbubble") and v.startswith("other")):
                         plan.append((b, a, v, 2 + (i % 4)))
                     i += 1
+        plan += [("SDR", "allwrite", "other_r", 2, dict(read_time=33, write_time=17)),
+                 ("DDR3", "wstream", "other_r", 3, dict(read_time=17, write_time=9)),
+                 ("DDR3_half", "allread", "other_w", 3, dict(read_time=9, write_time=33))]
+        plan += [(b, a, v, 2, dict(read_time=r, write_time=w)) for (r, w), (b, a, v) in zip(RT, [("SDR", "allwrite", "other_r"), ("DDR3", "allwrite", "other_r"),
+                 ("SDR", "allread", "other_w"), ("DDR", "allwrite", "other_r"), ("DDR3_half", "allwrite", "other_r"), ("SDR", "wstream", "other_r"),
+                 ("DDR2", "allread", "other_w"), ("DDR3", "allwrite", "other_r")])]
         ncmd = 9000
     out = []
-    for i, (b, a, v, nports) in enumerate(plan):
+    plan = [pl for j, pl in enumerate(plan) if pl not in plan[:j]]
+    for i, pl in enumerate(plan):
+        b, a, v, nports = pl[:4]
+        times = pl[4] if len(pl) > 4 else {}
         ports = [dict(VICTIM[v], ncmd=ncmd // 60, seed=9, partial=0.1)]
         for k in range(nports - 1):
             ag = AGGR[a][k % len(AGGR[a])] if isinstance(AGGR[a], list) else AGGR[a]
             ports.append(dict(ag, ncmd=ncmd * (2 if isinstance(AGGR[a], list) else 1), seed=20 + k))
         norefresh = a in ("wstream", "rstream") and i % 2 == 0
-        out.append(scenario("%s-%s-%s-%dp%s" % (b, a, v, nports, "-noref" if norefresh else ""), b, ports, seed * 7 + i, tech=dict(tREFI=2000),
-                            ctrl=dict(cmd_buffer_depth=[8, 4, 2][i % 3], with_refresh=not norefresh), max_cycles=600000, drain=60000, sweep_max=40))
+        out.append(scenario("%s-%s-%s-%dp%s%s" % (b, a, v, nports, "-noref" if norefresh else "",
+                                                  "-rt%dwt%d" % (times["read_time"], times["write_time"]) if times else ""), b, ports, seed * 7 + i, tech=dict(tREFI=2000),
+                            ctrl=dict(times, cmd_buffer_depth=[8, 4, 2][i % 3], with_refresh=not norefresh), max_cycles=600000, drain=60000, sweep_max=40))
     from . import c03, c01
     return out + c03.mux_lockstep_scenarios(tier, seed)[:2] + c03.muxr_lockstep_scenarios(tier, seed)[:2] + c01.xbar_lockstep_scenarios(tier, seed)[:2]
 
